@@ -16,9 +16,9 @@ func checkC18(r *Run) {
 	r2 := r.Rule("R-C18-2", "requestContext: WithTimeout(ctx, ResponseTimeout) wrapped so that Err() is a RequestTimeoutError")
 	r3 := r.Rule("R-C18-3", "a failed (timed-out) request or retransmission is reported through OnError, kept, and the link is recycled")
 	r4 := r.Rule("R-C18-4", "a request that times out (ctx.Done() case of any wait) returns an error carrying its retry handle, so that it is kept for retransmission (R-C01-5)")
-	r1.Floor(6)
-	r3.Floor(8)
-	r4.Floor(10)
+	r1.Floor(4)
+	r3.Floor(5)
+	r4.Floor(6)
 	c.ruleRetryableFailures(r4, c.sitesOrLost(r4))
 	a := c.retryAnchors()
 	if a.lost(r1) {
@@ -133,6 +133,7 @@ func checkC18(r *Run) {
 	rcF := a.ReqCtx
 	okRC := false
 	var timeoutRet *ssa.Return
+	wrapT := ""
 	for _, ret := range returnsOf(rcF) {
 		v := c.Resolve(c.RetVal(ret, 0))
 		if v == ssa.Value(rcF.Params[1]) {
@@ -172,7 +173,10 @@ func checkC18(r *Run) {
 		}
 		timeoutRet = ret
 		al, ok := v.(*ssa.Alloc)
-		if !ok || typeName(al.Type()) != "requestContext" {
+		if ok {
+			wrapT = typeName(al.Type())
+		}
+		if !ok || wrapT == "" || c.Method(wrapT, "Err") == nil {
 			r2.Bad("requestContext/wrap", ret.Pos(), "the bounded context is not wrapped in requestContext: its expiry is not reported as RequestTimeoutError")
 			continue
 		}
@@ -210,7 +214,10 @@ func checkC18(r *Run) {
 	}
 	_ = okRC
 	// Err() of requestContext wraps in RequestTimeoutError
-	errM := c.Method("requestContext", "Err")
+	if wrapT == "" {
+		wrapT = "requestContext"
+	}
+	errM := c.Method(wrapT, "Err")
 	if errM == nil {
 		r2.Bad("(*requestContext).Err", rcF.Pos(), "requestContext has no Err method of its own: an expired response timeout is indistinguishable from a cancelled caller context")
 	} else {
